@@ -57,3 +57,68 @@ def table(ctx):
 
 def describe(log):
     return ["%s merged with default_to=%s" % (absint.fmt(x[0]) if not isinstance(x[0], str) else x[0], absint.fmt(x[3])) for x in log]
+
+
+TEXTS = {"en": ["Hello", "OK", "Hello"], "fr": ["Bonjour", "OK", " "], "fr-CA": ["Allo", "OK", " ", "Allo"], "de": ["Hallo", " ", "OK"]}
+
+
+def string_tables(ctx, order):
+    """(result, {locale: (strings, top_locale_string_count)}) after check_locales_inner on [en] + order, with the real
+    StringIndexer (push_str / get_strings / constructors) under it: the merge of a locale pushes that locale's texts, in
+    order, into the indexer it is handed"""
+    fn = ctx.ast.fn(PM, "check_locales_inner")
+    if fn is None:
+        return "check_locales_inner not found", {}
+
+    def loc(n):
+        return CF("Locale", name=S(n), top_locale_name=S(n), keys=A("keys-of-" + n), strings=L(), top_locale_string_count=("int", 0))
+    locales = L(*[loc(n) for n in ["en"] + list(order)])
+    funcs = {k: v for k, v in absint.file_funcs(ctx.ast, PM).items() if k != "check_locales_inner"}
+    holder = {}
+
+    def push_all(name, indexer):
+        ps = funcs.get("StringIndexer::push_str") or funcs.get("push_str")
+        if ps is None:
+            raise Unknown("StringIndexer::push_str not found")
+        for t in TEXTS[name]:
+            ev2 = AEval(funcs=funcs)
+            got = ev2.run_fn(ps, [indexer, S(t)])
+            if isinstance(got, str):
+                raise Unknown("push_str: " + got)
+            indexer = (getattr(ev2, "last_env", None) or {}).get("self", indexer)
+        return indexer
+
+    def merge(rv, a):
+        nm = absint.fields_of(rv)["name"][1]
+        idx = next(k for k, x in enumerate(a) if x[0] == "ctor" and x[1] == "StringIndexer")
+        return ("mutargs", C("Ok", UNIT), {idx: push_all(nm, a[idx])})
+
+    def mbk(rv, a):
+        nm = absint.fields_of(rv)["name"][1]
+        idx = next(k for k, x in enumerate(a) if x[0] == "ctor" and x[1] == "StringIndexer")
+        return ("mutargs", C("Ok", A("DEFAULT-KEYS")), {idx: push_all(nm, a[idx])})
+    ev = AEval(inputs=[], funcs=funcs, builtins={"merge": merge, "make_builder_keys": mbk, "propagate_string_count": lambda rv, a: UNIT,
+                                                 "unwrap_at": lambda rv, a: rv[2][0] if rv[0] == "ctor" and rv[2] else rv})
+    ev.cfg = lambda t: False
+    ev.path_builtins = {"StringIndexer::default": lambda a: CF("StringIndexer", current=L(), acc=L()), "KeyPath::new": lambda a: A("key_path")}
+    try:
+        res = ev.call_fn_obj(fn, [locales, C("None"), L(), A("warnings")])
+    except Unknown as u:
+        return "UNKNOWN: %s" % u, {}
+    after = (getattr(ev, "last_env", None) or {}).get("locales", locales)
+    out = {}
+    for x in after[1]:
+        f = absint.fields_of(x)
+        out[f["name"][1]] = ([y[1] for y in f["strings"][1]] if f["strings"][0] == "list" else f["strings"], f["top_locale_string_count"])
+    return res, out
+
+
+def expected_tables(order):
+    out = {}
+    for n in ["en"] + list(order):
+        d = []
+        for t in TEXTS[n]:
+            if t not in d:
+                d.append(t)
+        out[n] = (d, ("int", len(d)))
+    return out
